@@ -525,6 +525,9 @@ pub struct ParserCfg {
     /// GenericParser only: register the expected claims through ONE extend_check_claims(map) call instead of check_claim
     #[serde(default)]
     pub expected_via_extend: bool,
+    /// call set_implicit_assertion BEFORE set_footer (the setters must commute)
+    #[serde(default)]
+    pub assertion_first: bool,
 }
 
 /// collects boxed claims for extend_check_claims
@@ -782,6 +785,8 @@ pub fn key32(b: [u8; 32]) -> Key<32> {
 pub trait Proto {
     fn core_seal(key: &KeyMat, nonce: &[u8], msg: &str, footer: Option<&str>, ia: Option<&str>) -> (Out<String>, Vec<&'static str>);
     fn core_open(key: &KeyMat, token: &str, footer: Option<&str>, ia: Option<&str>) -> (Out<String>, Vec<&'static str>);
+    /// ONE core builder object sealed from `nonces.len()` times (set_payload/set_footer/set_implicit_assertion once, or again before each seal)
+    fn core_seal_many(key: &KeyMat, nonces: &[Vec<u8>], msg: &str, footer: Option<&str>, ia: Option<&str>, reconfigure: bool) -> Vec<Out<String>>;
     fn generic_seal(key: &KeyMat, ops: &[ClaimOp], footer: Option<&str>, ia: Option<&str>) -> (Out<String>, Vec<&'static str>);
     /// several builds from ONE GenericBuilder (nonce-freshness histories)
     fn generic_seal_many(key: &KeyMat, ops: &[ClaimOp], footer: Option<&str>, ia: Option<&str>, n: usize, reuse: bool) -> Vec<Out<String>>;
@@ -802,10 +807,15 @@ macro_rules! impl_proto {
         impl $T {
             #[allow(unused_variables)]
             fn configure_generic<'a>(p: &mut GenericParser<'a, 'a, $V, $Pu>, cfg: &'a ParserCfg) -> Result<(), PasetoClaimError> {
+                if cfg.assertion_first {
+                    ia_builder!($assert, p, cfg.assertion.as_deref());
+                }
                 if let Some(f) = &cfg.footer {
                     p.set_footer(Footer::from(f.as_str()));
                 }
-                ia_builder!($assert, p, cfg.assertion.as_deref());
+                if !cfg.assertion_first {
+                    ia_builder!($assert, p, cfg.assertion.as_deref());
+                }
                 if cfg.expected_via_extend {
                     let mut m: std::collections::HashMap<String, Box<dyn erased_serde::Serialize + 'a>> = std::collections::HashMap::new();
                     {
@@ -838,10 +848,15 @@ macro_rules! impl_proto {
             }
             #[allow(unused_variables)]
             fn configure_batteries<'a>(p: &mut PasetoParser<'a, $V, $Pu>, cfg: &'a ParserCfg) -> Result<(), PasetoClaimError> {
+                if cfg.assertion_first {
+                    ia_builder!($assert, p, cfg.assertion.as_deref());
+                }
                 if let Some(f) = &cfg.footer {
                     p.set_footer(Footer::from(f.as_str()));
                 }
-                ia_builder!($assert, p, cfg.assertion.as_deref());
+                if !cfg.assertion_first {
+                    ia_builder!($assert, p, cfg.assertion.as_deref());
+                }
                 for c in &cfg.expected {
                     // PasetoParser::check_claim wants 'static claims: give it owned ones
                     match c {
@@ -895,6 +910,28 @@ macro_rules! impl_proto {
                     },
                     perr,
                 )
+            }
+            #[allow(unused_variables)]
+            fn core_seal_many(key: &KeyMat, nonces: &[Vec<u8>], msg: &str, footer: Option<&str>, ia: Option<&str>, reconfigure: bool) -> Vec<Out<String>> {
+                let mut outs = Vec::new();
+                let mut b = Paseto::<$V, $Pu>::builder();
+                b.set_payload(Payload::from(msg));
+                if let Some(f) = footer {
+                    b.set_footer(Footer::from(f));
+                }
+                ia_builder!($assert, b, ia);
+                for nonce in nonces {
+                    if reconfigure {
+                        b.set_payload(Payload::from(msg));
+                        if let Some(f) = footer {
+                            b.set_footer(Footer::from(f));
+                        }
+                        ia_builder!($assert, b, ia);
+                    }
+                    let (o, _) = guard(|| -> Result<String, PasetoError> { seal_core!($kind, $V, b, key, nonce.as_slice()) }, perr);
+                    outs.push(o);
+                }
+                outs
             }
             fn core_open(key: &KeyMat, token: &str, footer: Option<&str>, ia: Option<&str>) -> (Out<String>, Vec<&'static str>) {
                 guard(
@@ -1373,7 +1410,8 @@ pub fn open_at(layer: Layer, p: P, key: &KeyMat, token: &str, footer: Option<&st
     match layer {
         Layer::Core => core_open(p, key, token, footer, ia),
         Layer::Generic | Layer::Batteries => {
-            let cfg = ParserCfg { footer: footer.map(|s| s.to_string()), assertion: ia.map(|s| s.to_string()), default_parser: false, ..Default::default() };
+            // the order in which footer and assertion are configured on the parser must not matter: alternate it
+            let cfg = ParserCfg { footer: footer.map(|s| s.to_string()), assertion: ia.map(|s| s.to_string()), default_parser: false, assertion_first: ctor_turn() % 2 == 0, ..Default::default() };
             let (o, t) = if layer == Layer::Generic { generic_open(p, key, token, &cfg) } else { batteries_open(p, key, token, &cfg) };
             let o = match o {
                 Out::Ok(v) => Out::Ok(v.to_string()),
@@ -1391,4 +1429,8 @@ pub fn session(p: P, batteries: bool, keys: &[KeyMat], cfg: &ParserCfg, steps: &
 
 pub fn generic_run(p: P, key: &KeyMat, ops: &[GOp]) -> Vec<Out<String>> {
     dispatch!(p, T => T::generic_run(key, ops))
+}
+
+pub fn core_seal_many(p: P, key: &KeyMat, nonces: &[Vec<u8>], msg: &str, footer: Option<&str>, ia: Option<&str>, reconfigure: bool) -> Vec<Out<String>> {
+    dispatch!(p, T => T::core_seal_many(key, nonces, msg, footer, ia, reconfigure))
 }
